@@ -1,5 +1,6 @@
 """C02 - remaining work changes only by the allocated resources' contribution; finish timing."""
 from .. import gen as G
+from .. import scen
 from . import common as C
 from .common import NONE, READY, WORKING, FINISHED, SNAME, Static, TOL
 
@@ -18,7 +19,7 @@ LEVEL_TEXT = ("Seeded exploration of the conservation law 'remaining work decrea
               "value alphabet; plus both directions of the finish-timing clause.")
 LEVEL_NOTE = "Trusted: harness observers and the independent contribution formula; sampling evidence only."
 PROBES = ["contrib_multi_worker", "contrib_pair", "contrib_absent_worker_zero", "contrib_absent_facility_zero",
-          "auto_progress_in_absence", "finish_overshoot", "finish_exact_zero", "zero_work_task", "finish_blocked_by_dep"]
+          "auto_progress_in_absence", "finish_overshoot", "finish_exact_zero", "zero_work_task", "finish_blocked_by_dep", "remove_runs", "remove_after_backward_runs"]
 
 
 def budget(tier):
@@ -42,16 +43,33 @@ def gen(rng, tier):
         for t_ in spec["model"]["tasks"]:
             if rng.random() < 0.5:
                 t_["work"] = t_["work"] + rng.choice([0.005, 0.003])
+    if rng.random() < 0.08 and not spec.get("edit") and not spec.get("from_json"):
+        # an (unconfigured) sub-project task: an automatic task of its own class; with a history, the project goes through a file
+        m_ = spec["model"]
+        n0_ = len(m_["tasks"])
+        i_ = G.append_task(m_, {"id": "tsub", "work": rng.choice([2.0, 3.0, 5.0]), "rate": rng.choice([0.5, 1.0]), "sub": {"file": None, "unit_s": 60}}, rng)
+        for a_ in range(n0_):
+            if rng.random() < 0.2:
+                m_["deps"].append([a_, i_, 0])
+        spec["ranks"]["tsub"] = max(spec["ranks"].values()) + 1
+        if spec.get("history") is not None and not spec["history"].get("org_edit") and rng.random() < 0.7:
+            spec["history"].update(reload=True, state=False, log=rng.random() < 0.5, k=rng.randint(1, 6))
     if spec.get("edit") is None and spec.get("history") is None and rng.random() < 0.12:
         ab = spec["cfg"].get("absence") or G.gen_absence(rng, 12, rng.randint(2, 5))
         if rng.random() < 0.4 and ab:
             ab = list(ab) + [rng.choice(ab)]  # a step named twice (two calendars put together)
         spec["cfg"]["absence"] = ab
         spec["remove"] = True
+        if rng.random() < 0.35 and not spec.get("from_json") and spec["cfg"].get("unit_time", 1) == 1:
+            spec["remove_backward"] = True  # ... from the (reversed) logs of a backward simulation
     return spec
 
 
 def extra_candidates(spec):
+    if spec.get("remove_backward"):
+        c = dict(spec)
+        c.pop("remove_backward")
+        yield c
     if spec.get("remove"):
         c = dict(spec)
         c.pop("remove")
@@ -251,12 +269,65 @@ def check_trace(res, tr, clause_prefix="C02"):
     return contributed
 
 
+def run_remove_backward(spec):
+    """backward_simulate (logs reversed at the end) under project absence steps, then remove_absence_time_list(): what is left
+    of every remaining-work log is what was recorded at the working steps of the inner run, in reversed order."""
+    from .. import build as B
+    from .. import director as D
+    scen.setup_run(spec.get("seed", 0))
+    tr = scen.Trace()
+    tr.model, tr.cfg = spec["model"], spec["cfg"]
+    tr.built = B.build(spec["model"], spec.get("ranks"))
+    tr.project = tr.built.project
+    tr.absence = set(spec["cfg"].get("absence", []))
+    tr.rec, tr.out = scen.simulate(tr.project, spec["cfg"], backward={"due": False, "reverse": True})
+    tr.ix = tr.rec.ix
+    tr.history, tr.log_offset = None, 0
+    res = C.base_result(tr)
+    res.count("remove_after_backward_runs")
+    steps = C.full_steps(tr.rec)
+    res.nontrivial = len(steps) >= 2 and any(s_.t in tr.absence for s_ in steps)
+    if tr.out.ok and len(steps) == len(tr.project.cost_list):
+        want = {}
+        for s_ in steps:
+            if s_.t not in tr.absence:
+                for tid_, v_ in s_.ph["recorded"]["T"].items():
+                    want.setdefault(tid_, []).append(v_[1])
+        o = D.call(lambda: tr.project.remove_absence_time_list())
+        if o.ok:
+            for t in tr.ix.tasks:
+                got = list(t.remaining_work_amount_record_list)
+                exp = list(reversed(want.get(t.ID, [])))
+                if got != exp:
+                    res.add("edit", "C02.after_remove_absence.remaining_work_log_is_not_the_working_steps.backward",
+                            "backward_simulate with absence list %s (logs reversed), then remove_absence_time_list(): the remaining-work log of "
+                            "%s is %s; the values recorded at the working steps, reversed, are %s"
+                            % (spec["cfg"].get("absence"), t.ID, got[:14], exp[:14]), None)
+                    break
+    return C.finish(res, tr)
+
+
 def run(spec):
+    if spec.get("remove_backward") and spec.get("remove") and not spec.get("edit") and spec.get("history") is None:
+        return run_remove_backward(spec)
     tr = C.run_forward(spec)
     tr.exact = spec.get("profile", {}).get("alphabet") == "dyadic"
     res = C.base_result(tr)
     n = check_trace(res, tr)
     res.nontrivial = n >= 2
+    snap_ = getattr(tr, "pre_reload_snap", None)
+    hist_ = getattr(tr, "history", None)
+    if snap_ is not None and hist_ and not hist_.get("state") and tr.rec.steps:
+        # a project that went through a file between two calls goes on with the remaining work the first call left
+        ph_ = tr.rec.steps[0].ph.get("updated") or tr.rec.steps[0].ph.get("allocated")
+        if ph_ is not None and not tr.rec.steps[0].synth_updated:
+            res.count("remaining_work_through_reload_compared")
+            for tid_ in sorted(snap_["T"]):
+                if tid_ in ph_["T"] and ph_["T"][tid_][1] != snap_["T"][tid_][1]:
+                    res.add("reload", "C02.remaining_work_changed_by_json_restart.%s" % ("subproject_task" if tid_ == "tsub" else "task"),
+                            "%s had remaining work %r when the first call returned; after write_simple_json/read_simple_json into the same "
+                            "project the continuing call starts with %r" % (tid_, snap_["T"][tid_][1], ph_["T"][tid_][1]), None)
+                    break
     if spec.get("edit") and tr.out.ok:
         # log edit: an inserted absence step is a step in which nothing works, so its remaining-work entry repeats the
         # previous entry (the initial remaining work for a step inserted before the first step)
